@@ -355,6 +355,7 @@ def run(ctx, tier):
     results += c08.start_compare(ctx, rule='C07.range-start-compare')
     results += c08.index_agreement(ctx, rule='C07.index-agreement')
     results += c08.key_order(ctx, rule='C07.key-order')
+    results += c08.iterator_overrides(ctx, rule='C07.iterator-overrides')
     import c01
     results += c01.carriers(ctx, rule='C07.carriers')
     # reads reflect EXACTLY the transaction's own changes: a refused mutation must not leave a partial one behind
